@@ -4,6 +4,7 @@
    in the programs) and ALL schedules. *)
 From Coq Require Import List Bool Arith.
 From V Require Import Base.Sched Proto.EventV1Defs Proto.EventV1Proofs.
+From V Require Proto.AutoResetDefs Proto.AutoResetProofs.
 Import ListNotations.
 Import EventV1.
 
@@ -140,3 +141,111 @@ Example C16_event_example_two_pops :
   snd c = [EWaitLoad 0 PNull; EWaitCas 0 PNull true; EWaitLoad 1 (POp 0); EWaitCas 1 (POp 0) true;
            ESetX (POp 1); ESetX PSig; EResume 1; EResume 0; EReadyLoad PSig; EReady true].
 Proof. vm_compute. repeat split; reflexivity. Qed.
+
+(* ========================================================================================== *)
+(* async_auto_reset_event (model Proto/AutoResetDefs.v, over the embedded EventV1).
+   For all initial states, all thread programs over set / set_done / next w (any number of
+   producers and consumers, NoDup of the next ids) and ALL schedules. *)
+Module AutoResetProps.
+Import AutoResetDefs.AutoReset AutoResetProofs.
+
+(* the invariant: at most one thread holds the mutex and it is the one mtx names; a successful
+   try_reset in flight implies state_ = UNSET; the embedded event satisfies its own invariant
+   Inv1; each thread's program counter matches what its event thread is doing; the header's
+   "event_ ready iff state_ is SET or DONE" holds whenever no thread is between its state_ write
+   and the matching event_ operation *)
+Theorem C16_autoreset_invariant : forall (ready0 : bool) (progs : list (list cmd)) (sched : list nat),
+  NoDup (all_nexts progs) ->
+  AInv ready0 (all_nexts progs) (fst (run step sched (init ready0 progs, []))).
+Proof. exact ainv_reachable. Qed.
+Print Assumptions C16_autoreset_invariant.
+
+(* each set() is handed to at most one next(): the nexts completed with value never outnumber
+   the UNSET -> SET transitions (plus one if constructed ready), which never outnumber the set()
+   calls of the programs *)
+Theorem C16_autoreset_set_consumed_at_most_once :
+  forall (ready0 : bool) (progs : list (list cmd)) (sched : list nat),
+  NoDup (all_nexts progs) ->
+  let s := fst (run step sched (init ready0 progs, [])) in
+  trues (results s) <= b2n ready0 + effs s /\ effs s <= total_sets progs.
+Proof. exact set_consumed_at_most_once. Qed.
+Print Assumptions C16_autoreset_set_consumed_at_most_once.
+
+Theorem C16_autoreset_next_completes_once :
+  forall (ready0 : bool) (progs : list (list cmd)) (sched : list nat),
+  NoDup (all_nexts progs) ->
+  let c := run step sched (init ready0 progs, []) in
+  NoDup (map fst (results (fst c))) /\
+  (forall w, In w (map fst (results (fst c))) -> In w (all_nexts progs)) /\
+  nexts (snd c) = rev (results (fst c)).
+Proof. exact next_completes_once. Qed.
+Print Assumptions C16_autoreset_next_completes_once.
+
+(* DONE is permanent ... *)
+Theorem C16_autoreset_done_absorbing :
+  forall (ready0 : bool) (progs : list (list cmd)) (sched1 sched2 : list nat),
+  s3v (fst (run step sched1 (init ready0 progs, []))) = Done ->
+  s3v (fst (run step (sched1 ++ sched2) (init ready0 progs, []))) = Done.
+Proof. exact done_absorbing. Qed.
+Print Assumptions C16_autoreset_done_absorbing.
+
+(* ... and from then on every next that completes completes with done *)
+Theorem C16_autoreset_done_next_is_done :
+  forall (ready0 : bool) (progs : list (list cmd)) (sched : list nat),
+  NoDup (all_nexts progs) ->
+  let s := fst (run step sched (init ready0 progs, [])) in
+  forall t s' evs w b,
+    s3v s = Done -> step t s = Some (s', evs) -> In (ENext w b) evs -> b = false.
+Proof. exact done_next_is_done. Qed.
+Print Assumptions C16_autoreset_done_next_is_done.
+
+(* at most one thread inside a critical section; with the mutex free, event_ is ready iff
+   state_ is SET or DONE *)
+Theorem C16_autoreset_mutex_and_flag :
+  forall (ready0 : bool) (progs : list (list cmd)) (sched : list nat),
+  NoDup (all_nexts progs) ->
+  let s := fst (run step sched (init ready0 progs, [])) in
+  pcount holds (thr s) <= 1 /\
+  (mtx s = None -> (EventV1.is_sig (EventV1.top (ev s)) = true <-> s3v s <> Unset)).
+Proof. exact mutex_and_flag. Qed.
+Print Assumptions C16_autoreset_mutex_and_flag.
+
+(* no lost wake-up, no deadlock: in a state where no thread can move, every thread has finished
+   its program except nexts suspended on the stack of an UNSET event with the mutex free; in
+   particular after set_done (or an unconsumed set) nobody is left waiting *)
+Theorem C16_autoreset_only_unset_blocks :
+  forall (ready0 : bool) (progs : list (list cmd)) (sched : list nat),
+  NoDup (all_nexts progs) ->
+  let s := fst (run step sched (init ready0 progs, [])) in
+  (forall t, step t s = None) ->
+  mtx s = None /\
+  forall t th, nth_error (thr s) t = Some th ->
+    th_fin th = true \/
+    exists w, apc th = ASusp w /\ In w (EventV1.stk (ev s)) /\ ~ In w (EventV1.resumed (ev s)) /\
+              s3v s = Unset.
+Proof. exact only_unset_blocks. Qed.
+Print Assumptions C16_autoreset_only_unset_blocks.
+
+(* REFUTED for two or more concurrent consumers: "a next completes with done only if the event
+   is DONE".  Witness: two nexts waiting, one set(): both are resumed, the first try_reset wins
+   (value), the second finds UNSET and its next-sender completes with done; set_done() is never
+   called and the event ends UNSET.  Reproduced on the real code:
+   k1_auto_reset 0 N0 N1 S --replay -   (default schedule). *)
+Theorem C16_autoreset_spurious_done_refuted :
+  exists progs sched,
+    NoDup (all_nexts progs) /\ no_set_done progs = true /\
+    let s := fst (run step sched (init false progs, [])) in
+    In (1, false) (results s) /\ s3v s = Unset /\ quiescent s = true.
+Proof. exact spurious_done_refuted. Qed.
+Print Assumptions C16_autoreset_spurious_done_refuted.
+
+(* consumer (thread 0) runs two nexts, thread 1 calls set(), thread 2 set_done(): next 0 waits, is
+   resumed by the set and consumes it (value, state back to UNSET); next 1 waits, is resumed by
+   set_done and completes done *)
+Example C16_autoreset_example :
+  let progs := [[ANext 0; ANext 1]; [ASet]; [ASetDone]] in
+  let c := run step [0; 0; 1; 1; 1; 1; 0; 0; 0; 0; 0; 2; 2; 2; 2; 0; 0] (init false progs, []) in
+  results (fst c) = [(1, false); (0, true)] /\ s3v (fst c) = Done /\ quiescent (fst c) = true /\
+  effs (fst c) = 1.
+Proof. vm_compute. repeat split; reflexivity. Qed.
+End AutoResetProps.
